@@ -91,6 +91,17 @@ Proof.
   intros E. inversion E. now apply Sub_same_links.
 Qed.
 
+Lemma Sub_default_rows s t1 t2 t3 t4 t5 : Sub s (default_rows s t1 t2 t3 t4 t5).
+Proof.
+  unfold default_rows.
+  assert (K : forall l s0, Sub s0 (fold_left (fun s' (nt : str * Z) => match create_mailbox_row s' (fst nt) (snd nt) with
+                                            | Some (s'', _) => s'' | None => s' end) l s0)).
+  { induction l as [|nt r IH]; intros s0; [apply Sub_refl|]. cbn [fold_left].
+    destruct (create_mailbox_row s0 (fst nt) (snd nt)) as [[s1 i]|] eqn:Cr; [|apply IH].
+    eapply Sub_trans; [eapply Sub_create; eauto|apply IH]. }
+  apply K.
+Qed.
+
 Lemma Sub_rename_row s mb new s' : rename_row s mb new = Some s' -> Sub s s'.
 Proof.
   unfold rename_row. destruct (find_id s mb); [|intros E; inversion E; apply Sub_refl].
@@ -226,6 +237,7 @@ Proof.
   - destruct (_ && _); [|exact W]. apply OptCase. intros s' E.
     destruct (create_mailbox_row (d_st d) name t) as [[s1 i]|] eqn:Cr; [|discriminate].
     cbn in E. inversion E. subst. eapply Sub_create; eauto.
+  - destruct (_ && _); [|exact W]. destruct (mboxes (d_st d)); [|exact W]. apply SubCase. apply Sub_default_rows.
   - (* INSERT messages *)
     destruct W as [W1 W2 W3 W4]. unfold store_message. constructor; cbn [d_st d_msgs links next_msg]; auto.
     + intros m Hm. cbn [d_st d_msgs next_msg]. apply in_app_or in Hm. destruct Hm as [Hm|[<-|[]]].
@@ -354,9 +366,10 @@ Qed.
 
 Lemma open_plain d t1 t2 t3 t4 t5 : forallb plain (open_steps d t1 t2 t3 t4 t5) = true.
 Proof.
-  unfold open_steps. destruct (d_file d); [reflexivity|]. cbn [forallb plain andb].
-  rewrite forallb_app. apply andb_true_iff. split; [|reflexivity].
-  apply forallb_forall. intros x H. apply in_map_iff in H. destruct H as (i & <- & _). reflexivity.
+  unfold open_steps. rewrite !forallb_app. apply andb_true_iff. split; [|apply andb_true_iff; split].
+  - destruct (d_file d); reflexivity.
+  - apply forallb_forall. intros x H. apply in_map_iff in H. destruct H as (i & <- & _). reflexivity.
+  - destruct (mboxes (d_st (file_of d))); reflexivity.
 Qed.
 
 Lemma parent_steps_plain ps t : forall s, forallb plain (parent_steps s ps t) = true.
@@ -397,18 +410,15 @@ Qed.
     order that provides all guards *)
 Lemma micro_guards d o : WF d -> guards_along d (micro d o).
 Proof.
-  intros W. destruct o as [t1 t2 t3 t4 t5|f t sh t1 t2 t3 t4 t5|f fl sh|o|n|n]; cbn [micro].
+  intros W. destruct o as [t1 t2 t3 t4 t5|f t sh|f fl sh|o|n|n]; cbn [micro].
   - apply guards_plain, open_plain.
-  - apply guards_app. split; [apply guards_plain, open_plain|].
-    rewrite open_refines. set (d0 := opened d t1 t2 t3 t4 t5).
-    assert (W0 : WF d0) by now apply opened_WF.
-    destruct (ready d0) eqn:Hr; [|exact I].
-    unfold deliver_steps. destruct (find_name (d_st d0) f) as [m|].
+  - destruct (ready d) eqn:Hr; [|exact I].
+    unfold deliver_steps. destruct (find_name (d_st d) f) as [m|].
     + cbn [app]. apply guards_store_and_link; auto. destruct (add_ok _ _); reflexivity.
-    + destruct (create_mailbox_row (d_st d0) f t) as [[s' id]|] eqn:Cr; [|exact I].
+    + destruct (create_mailbox_row (d_st d) f t) as [[s' id]|] eqn:Cr; [|exact I].
       cbn [app guards_along guard]. split; [exact I|].
       rewrite exec_ins_mailbox, Cr by auto. cbn [option_map fst opt_st].
-      pose proof (guards_store_and_link (with_st d0 s') id [] sh
+      pose proof (guards_store_and_link (with_st d s') id [] sh
                     (if add_ok s' id then [MInsDelivery] else [])) as X.
       cbn [d_st with_st] in X. apply X.
       * apply WF_sub; auto. eapply Sub_create; eauto.
